@@ -164,7 +164,8 @@ def generate(ctx):
                 add(Obj([(k1, 1)]), Obj([(k2, 1)]), cs, False, 'fold-sweep')
     # values nested about as deep as the parser accepts (and deeper, as the construction API allows): equality has no depth limit
     if ctx.get('seed_index', 0) == 0:
-        for depth in (998, 999, 1000, 1001, 1200):
+        NL = nesting_limit(ctx['repo'])
+        for depth in (NL - 2, NL - 1, NL, NL + 1, NL + 200):
             v = 1; w = 2
             for _ in range(depth): v = [v]; w = [w]
             add(v, copy.deepcopy(v), 1, False, 'deep'); add(v, w, 1, False, 'deep'); add(v, v, 1, True, 'deep')
